@@ -605,7 +605,12 @@ def applyOp (s : Sess) : Op → Sess × Res
     let s0 := { s with w := { s.w with ln := { s.w.ln with failCreateInvoice := if lnFail then 1 else 0 } } }
     let (s1, r) := s0.runPM (requestMintQuote (cxOf s) qid amount unitSat pk) []
     match r with
-    | .ok _ => ({ s1 with w := { s1.w with nextMintQ := qid + 1 }, watchers := qid :: s1.watchers }, .mintQuote r)
+    | .ok _ =>
+      -- the watcher lives unless its first step, reading the quote back, failed: the only storage call of the program
+      -- whose failure does not fail the request — so "the request succeeded although the armed fault fired"
+      let watcherDied := s0.w.faultAt.isSome && s1.w.faultAt.isNone
+      ({ s1 with w := { s1.w with nextMintQ := qid + 1 }, watchers := if watcherDied then s1.watchers else qid :: s1.watchers },
+       .mintQuote r)
     | .error _ => (s1, .mintQuote r)
   | .notify q =>
     if s.watchers.contains q then
